@@ -172,9 +172,23 @@ pub fn cmr10_path() -> std::path::PathBuf {
     vcore::repo_dir().join("crates/tfm/corpus/computer-modern/cmr10.tfm")
 }
 
-fn build_ctx() -> Result<Ctx, String> {
+fn build_ctx(zero_kerns: bool) -> Result<Ctx, String> {
     let path = cmr10_path();
-    let bytes = std::fs::read(&path).map_err(|e| format!("cannot read {}: {e}", path.display()))?;
+    let mut bytes = std::fs::read(&path).map_err(|e| format!("cannot read {}: {e}", path.display()))?;
+    // Every fourth kern amount of cmr10 is set to ZERO (in the bytes both readers get): TeX appends a kern node for every
+    // kern step whatever its amount (§1040), and a font may well say `KRN .. R 0.0` or have a kern that rounds to zero at
+    // its design size; cmr10 itself has no zero kern, so nothing would notice a reader that drops them.
+    if zero_kerns && bytes.len() >= 24 {
+        let h = |i: usize| u16::from_be_bytes([bytes[2 * i], bytes[2 * i + 1]]) as usize;
+        let (lh, bc, ec, nw, nh, nd, ni, nl, nk) = (h(1), h(2), h(3), h(4), h(5), h(6), h(7), h(8), h(9));
+        let kern0 = 4 * (6 + lh + (ec + 1 - bc) + nw + nh + nd + ni + nl);
+        for k in (0..nk).step_by(4) {
+            let at = kern0 + 4 * k;
+            if at + 4 <= bytes.len() {
+                bytes[at..at + 4].copy_from_slice(&[0, 0, 0, 0]);
+            }
+        }
+    }
     let lite = TfmLite::parse(&bytes).ok_or("model cannot parse cmr10.tfm")?;
     let mut tfm_file = tfm::File::deserialize(&bytes).0.map_err(|e| format!("repo cannot parse cmr10.tfm: {e:?}"))?;
     let program = tfm::ligkern::CompiledProgram::compile_from_tfm_file(&mut tfm_file).0;
@@ -187,6 +201,19 @@ fn build_ctx() -> Result<Ctx, String> {
 
 thread_local! {
     static CTX: RefCell<Option<Result<std::rc::Rc<Ctx>, String>>> = const { RefCell::new(None) };
+    static CTX_ZERO_KERNS: RefCell<Option<Result<std::rc::Rc<Ctx>, String>>> = const { RefCell::new(None) };
+}
+
+/// cmr10 with every fourth kern amount set to zero (see `build_ctx`): used by half of the generated text cases, never
+/// by the calibration against the goldens (those were produced with the real cmr10).
+pub fn ctx_zero_kerns() -> Result<std::rc::Rc<Ctx>, String> {
+    CTX_ZERO_KERNS.with(|c| {
+        let mut c = c.borrow_mut();
+        if c.is_none() {
+            *c = Some(build_ctx(true).map(std::rc::Rc::new));
+        }
+        c.as_ref().unwrap().clone()
+    })
 }
 
 /// The font context is immutable once built; it is cached per thread only to avoid re-parsing
@@ -195,7 +222,7 @@ pub fn ctx() -> Result<std::rc::Rc<Ctx>, String> {
     CTX.with(|c| {
         let mut c = c.borrow_mut();
         if c.is_none() {
-            *c = Some(build_ctx().map(std::rc::Rc::new));
+            *c = Some(build_ctx(false).map(std::rc::Rc::new));
         }
         c.as_ref().unwrap().clone()
     })
